@@ -42,6 +42,7 @@ fn main() {
         "C04" => sc_nested::record_c04(&mut rng, count, &mut out),
         "C14" => sc_nested::record_c14(&mut rng, count, &mut out),
         "C13" => sc_cov::record_c13(&mut rng, count, &mut out),
+        "CONEBIG" => sc_cov::record_cone_large(&mut rng, count, &mut out),
         "C12" => sc_cov::record_c12(&mut rng, count, &mut out),
         "C16" => sc_cov::record_c16(&mut rng, count, &mut out),
         "CONE" => sc_cov::record_cone(&mut rng, count, &mut out),
